@@ -8,6 +8,7 @@ Exit 1  VIOLATION property=<id> replay=<path>
 Exit 2  INCONCLUSIVE (watchdog, monitor never reached, wrong tree) - never a violation
 """
 import argparse
+import gc
 import importlib
 import json
 import os
@@ -23,7 +24,7 @@ from . import common
 from .common import Inconclusive, say
 
 NSHARDS = int(os.environ.get('VERIF_SHARDS', '16'))
-CASE_WATCHDOG_S = 120
+CASE_WATCHDOG_S = 60
 MAX_SAMPLES = 6
 
 
@@ -44,8 +45,9 @@ def load_findings(pid):
 _EARLY_COV = None
 
 
-class _CaseTimeout(Exception):
-    pass
+class _CaseTimeout(BaseException):
+    """raised by SIGALRM; a BaseException so that the `except Exception` blocks inside rxsci operators (which turn
+    exceptions of user functions into mux errors) cannot swallow it"""
 
 
 def _alarm(signum, frame):
@@ -88,6 +90,17 @@ def _coverage_report(cov, anchors):
         return None
 
 
+def _limit_memory():
+    try:
+        import resource
+        cap = int(os.environ.get('VERIF_MEM_CAP_GB', '6')) << 30
+        soft, hard = resource.getrlimit(resource.RLIMIT_AS)
+        if hard == resource.RLIM_INFINITY or hard > cap:
+            resource.setrlimit(resource.RLIMIT_AS, (cap, hard))
+    except Exception:
+        pass
+
+
 def run_shard(check, tier, seed, shard, nshards, budget_s, with_coverage):
     """Generate and evaluate cases; returns a JSON-able result dict."""
     common.bootstrap()
@@ -98,8 +111,9 @@ def run_shard(check, tier, seed, shard, nshards, budget_s, with_coverage):
         'evaluations': 0, 'distinct': set(), 'tags': Counter(), 'observed': Counter(),
         'discarded': Counter(), 'samples': [], 'known': Counter(), 'known_witness': {},
         'violations': [], 'truncated': False, 'exhausted_generator': False,
-        'inconclusive': None, 'coverage': None,
+        'inconclusive': None, 'coverage': None, 'watchdog': [],
     }
+    _limit_memory()
     cov = _EARLY_COV if with_coverage else None
     t0 = time.monotonic()
     signal.signal(signal.SIGALRM, _alarm)
@@ -118,9 +132,17 @@ def run_shard(check, tier, seed, shard, nshards, budget_s, with_coverage):
             try:
                 out = check.evaluate(case)
             except _CaseTimeout:
-                res['inconclusive'] = 'case watchdog (%ds) fired on %s' % (
-                    CASE_WATCHDOG_S, json.dumps(common.jsonable(case))[:300])
-                break
+                # a pathological generated case (e.g. aliasing of a growing accumulator that makes every snapshot
+                # quadratic): never a violation.  It is set aside and counted; the run turns inconclusive when
+                # more than 1 in 1000 cases needed the watchdog.
+                res['watchdog'].append(json.dumps(common.jsonable(case))[:400])
+                res['discarded']['case watchdog (%ds) fired' % CASE_WATCHDOG_S] += 1
+                res['evaluations'] += 1
+                gc.collect()
+                if len(res['watchdog']) > max(3, res['evaluations'] // 1000):
+                    res['inconclusive'] = 'case watchdog fired %d times in %d cases' % (len(res['watchdog']), res['evaluations'])
+                    break
+                continue
             except Inconclusive:
                 raise
             except Exception as e:      # noqa: BLE001
@@ -212,7 +234,7 @@ def merge(results):
         'evaluations': 0, 'distinct': set(), 'tags': Counter(), 'observed': Counter(),
         'discarded': Counter(), 'samples': [], 'known': Counter(), 'known_witness': {},
         'violations': [], 'truncated': False, 'exhausted_generator': True,
-        'inconclusive': None, 'coverage': None, 'wall_s': 0.0, 'extra': {},
+        'inconclusive': None, 'coverage': None, 'wall_s': 0.0, 'extra': {}, 'watchdog': [],
     }
     for r in results:
         m['evaluations'] += r['evaluations']
@@ -227,6 +249,7 @@ def merge(results):
         for k, v in r['known_witness'].items():
             m['known_witness'].setdefault(k, v)
         m['violations'].extend(r['violations'])
+        m['watchdog'].extend(r.get('watchdog', []))
         m['truncated'] = m['truncated'] or r['truncated']
         m['exhausted_generator'] = m['exhausted_generator'] and r['exhausted_generator']
         m['inconclusive'] = m['inconclusive'] or r['inconclusive']
@@ -277,6 +300,7 @@ def write_evidence(check, tier, seed, res, wall, verdict):
         'stopped_by_wall_clock_budget': res['truncated'],
         'generator_ran_to_completion': res['exhausted_generator'],
         'anchor_line_coverage': res['coverage'],
+        'cases_set_aside_by_the_watchdog': res.get('watchdog', [])[:5],
     }
     cov.update(res.get('extra') or {})
     ev = {
